@@ -4,7 +4,8 @@ from ..constfold import Callable_, EnumMember, FoldedObject, NotConstant, Regex
 from ..match import ANYP, H, match, strip
 from ..terms import show, subterms
 from .lang import P, b, D, check_pairwise_disjoint, impl_pattern
-from .lib import exc_name, fail, live_exits
+from .lib import cond_str, exc_name, fail, live_exits
+from .fieldtrace import Trace, Tracer
 
 LEVEL = "proof"
 META = "chartparse.metadata.Metadata"
@@ -37,6 +38,113 @@ def canon_for(field: str, kind: str):
     return rf"{b}*{F} = (?P<value>bass|rhythm){b}*"
 
 
+def judge_field(ctx, rs, f, c, tr, field, required, kwargs_alloc, SPECS, LINES):
+    """The facts collected for one field (fieldtrace) against the statement: the value of the first line its own recogniser
+    matches is stored under its own key; when no line matches a required field raises MissingRequiredField(field) and an
+    optional one does nothing at all.  Returns the regex method used by the scan (or None)."""
+    for g, node, msg in tr.problems:
+        fail(rs, ctx, g, node, f"field {field!r}: {msg}")
+    stores = [x for x in tr.facts if x.kind == "store"]
+    SP = ("sub", SPECS, ("const", field))
+    method = None
+    tid = None
+    if len(stores) != 1:
+        fail(rs, ctx, f, c.node, f"field {field!r}: expected exactly one store kwargs[{field!r}] = <scan result>; found {len(stores)} store(s) "
+                                 f"on the call chain {' -> '.join(q.rsplit('.', 1)[-1] for q in tr.visited)}")
+    else:
+        st = stores[0]
+        if strip(st.key) != ("const", field) or (kwargs_alloc is not None and strip(st.target) != strip(kwargs_alloc)):
+            fail(rs, ctx, st.g, st.node, f"the setter must store kwargs[field_name] = scan(field_name) for one and the same field; for "
+                                         f"{field!r} it stores {show(st.target)[:40]}[{show(st.key)[:40]}] = {show(st.value)[:100]}")
+        if st.cond:
+            fail(rs, ctx, st.g, st.node, f"field {field!r} is only stored under a condition ({cond_str(st.cond)[:120]})")
+        if len(st.trys) != 1:
+            fail(rs, ctx, st.g, st.node, "the store is not inside exactly one try: an absent optional field would raise / a failure is swallowed twice"
+                 if not st.trys else "the store is enclosed by more than one try")
+        else:
+            tid, handlers = st.trys[-1]
+            hn = [exc_name(h) for hs in handlers if hs is not None for h in hs]
+            if hn != [RNM] or any(hs is None for hs in handlers):
+                fail(rs, ctx, st.g, st.node, f"the handler must catch exactly RegexNotMatchError; catches {hn}")
+        if st.callrec is None:
+            fail(rs, ctx, st.g, st.node, f"field {field!r}: the stored value {show(st.value)[:120]} is not the result of a line scan (a helper of the "
+                                         f"metadata module with a loop over the lines)")
+        else:
+            callee, cenv, bound, crec = st.callrec
+            gs = ctx.ev.evaluate(callee, bound, cenv, 0)
+            method = judge_scan(ctx, rs, callee, gs, field, SP, LINES)
+    raises = [x for x in tr.facts if x.kind == "raise"]
+    okraise = []
+    for x in raises:
+        en = exc_name(x.value)
+        ok = en == MRF and x.value[0] == "call" and dict(x.value[3]).get("field_name") == ("const", field) and not x.value[2]
+        ok = ok and not x.trys and tid is not None and set(x.cond) <= {(("raises", tid), True), (("handler", tid, 0), True)} \
+            and (("raises", tid), True) in x.cond and not x.detail
+        if ok:
+            okraise.append(x)
+        else:
+            fail(rs, ctx, x.g, x.node, f"field {field!r}: unexpected raise of {show(x.value)[:100]} under {cond_str(x.cond)[:160]} "
+                                       f"(only MissingRequiredField({field!r}), raised exactly when no line matched, is specified"
+                                       f"{'' if required else '; an optional field never raises'})")
+    if required and len(okraise) != 1:
+        fail(rs, ctx, f, c.node, f"required field {field!r}: when no line matches, MissingRequiredField({field!r}) must be raised -- the absent-field "
+                                 f"callback must be invoked exactly when no line matched and a callback was supplied; found {len(okraise)} such raise(s)")
+    if not required and okraise:
+        fail(rs, ctx, okraise[0].g, okraise[0].node, f"optional field {field!r} raises MissingRequiredField when absent: its absence would abort the parse")
+    for x in tr.facts:
+        if x.kind == "effect":
+            fail(rs, ctx, x.g, x.node, f"field {field!r}: setter has an extra effect ({x.detail} on {show(x.target)[:60]})")
+        elif x.kind == "opaque":
+            fail(rs, ctx, x.g, x.node, f"field {field!r}: {x.detail} under {cond_str(x.cond)[:120]} -- a callable this analysis cannot resolve is invoked "
+                                       f"(an absent optional field calls None / an unknown callback)")
+        elif x.kind == "loop":
+            fail(rs, ctx, x.g, x.node, f"field {field!r}: a loop in the setter chain outside the line scan ({show(x.value)[:80]})")
+    return method
+
+
+def judge_scan(ctx, rs, g, gs, field, SP, LINES):
+    method = None
+    if gs.unsupported:
+        fail(rs, ctx, g, g.node, f"the line scan uses constructs outside the analysed subset: {gs.unsupported[:2]}")
+        return None
+    if len(gs.loops) != 1:
+        fail(rs, ctx, g, g.node, f"cannot find the per-field line scan: {g.name} has {len(gs.loops)} loops (expected one loop over the lines)")
+        return None
+    loop = next(iter(gs.loops.values()))
+    if strip(loop.iter) not in LINES:
+        fail(rs, ctx, g, loop.node, f"every field must be looked for in *all* the section's lines (lines = list(lines_iter)); the scan "
+                                    f"iterates {show(loop.iter)[:160] if loop.iter else None} -- a pre-filter drops legitimate values")
+    line = ("elem", loop.id)
+    Mp = ("call", ("meth", H("method")), (("attr", SP, "regex_prog"), line), ())
+    inl = [e for e in live_exits(gs) if e.loops]
+    post = [e for e in live_exits(gs) if not e.loops]
+    okr = False
+    if len(inl) == 1 and inl[0].kind == "ret":
+        conds = [(a, p) for a, p in inl[0].cond if a[0] != "inloop"]
+        if len(conds) == 1 and not conds[0][1] and conds[0][0][0] == "cmp" and conds[0][0][1] == "is" and ("const", None) in conds[0][0][2:]:
+            other = conds[0][0][3] if conds[0][0][2] == ("const", None) else conds[0][0][2]
+            conds = [(other, True)]  # `m is None` false  ==  m truthy
+        bm = match(Mp, strip(conds[0][0])) if len(conds) == 1 and conds[0][1] else None
+        if bm is not None and bm["method"] in ("match", "fullmatch", "search"):
+            method = bm["method"]
+            Mt = strip(conds[0][0])
+            want = ("call", ("meth", "processing_fn"), (SP, ("call", ("meth", "group"), (Mt, ("const", 1)), ())), ())
+            want2 = ("call", ("attr", SP, "processing_fn"), (("call", ("meth", "group"), (Mt, ("const", 1)), ()),), ())
+            okr = strip(inl[0].value) in (strip(want), strip(want2))
+    if not okr:
+        fail(rs, ctx, g, loop.node, f"the scan for {field!r} must return spec.processing_fn(m.group(1)) at the first line its own field's recogniser "
+                                    f"matches; found " + "; ".join(
+            f"{e.kind} {show(e.value)[:120]} if {show(e.cond[-1][0])[:80] if e.cond else ''}" for e in inl)[:400])
+    if len(post) != 1 or post[0].kind != "raise" or exc_name(post[0].value) != RNM or post[0].cond:
+        fail(rs, ctx, g, g.node, "when no line matches the scan must raise RegexNotMatchError (the 'field absent' signal)")
+    for e in gs.effects:
+        fail(rs, ctx, g, e.node, f"the scan has a side effect ({e.kind})")
+    for c_ in gs.calls:
+        if not c_.inlined and c_.fn[0] in ("func", "closure", "boundcls", "param", "free"):
+            fail(rs, ctx, g, c_.node, f"the scan delegates to {show(c_.fn)[:80]}, which this rule does not follow")
+    return method
+
+
 def run(ctx, rep):
     rep.explanation = (
         "The 24 field recognisers are recovered by constant folding through the spec classes' __init__ chains and the regex "
@@ -56,7 +164,7 @@ def run(ctx, rep):
     rl = rep.rule("language", "every canonical 'Field = value' line is accepted by its own field's recogniser", floor=24)
     rc = rep.rule("capture", "captured value = inner text verbatim (one pair of quotes removed) / the digits / the word", floor=24)
     rx_ = rep.rule("disjoint", "pairwise disjoint field languages (276 pairs)", floor=276)
-    rs = rep.rule("scan", "all lines scanned, first matching line wins, same key stored, required field raises", floor=3)
+    rs = rep.rule("scan", "per field, whatever the decomposition into helpers: all lines scanned, first matching line wins, value stored under the own key inside try/except RegexNotMatchError, a required field raises MissingRequiredField(field) exactly when no line matched, an optional one does nothing", floor=25)
     # ---- spec dict
     specs_t = None
     gname = None
@@ -73,16 +181,8 @@ def run(ctx, rep):
         fail(ra, ctx, f, f.node, f"the field-spec table does not fold to constants: {e}")
         return
     SPECS = ("gvar", f"chartparse.metadata.{gname}")
-    # ---- scan helpers (nested functions evaluated in the enclosing environment)
-    nested = {n: g for n, g in f.nested.items()}
+    # ---- what the parser does per field, whatever the decomposition into helpers (sa/rules/fieldtrace.py)
     method = "match"
-    lines_ok = False
-    parse_f = None
-    for n, g in nested.items():
-        env = s.defs.get(n)
-        gs = ctx.ev.evaluate(g, {}, env, 0)
-        if gs.loops:
-            parse_f = (g, gs)
     kwargs_alloc = None
     rets = s.rets()
     if len(rets) == 1 and rets[0].value[0] == "call" and rets[0].value[1][0] in ("clsparam", "class"):
@@ -94,140 +194,85 @@ def run(ctx, rep):
             fail(rs, ctx, f, rets[0].node, f"the result must be Metadata(**kwargs) for the dict filled field by field; found {show(rets[0].value)[:160]}")
     else:
         fail(rs, ctx, f, f.node, "Metadata.from_chart_lines must return one Metadata construction")
-    if parse_f is None:
-        fail(rs, ctx, f, f.node, "cannot find the per-field line scan (a nested function with a loop over the lines)")
-    else:
-        g, gs = parse_f
-        fname = ("param", g.params()[0])
-        SP = ("sub", SPECS, fname)
-        loop = next(iter(gs.loops.values()))
-        rs.inst(f"{g.name}: scan over list(lines_iter), first match returns")
-        lp = ("param", f.params()[1])
-        if strip(loop.iter) != ("call", ("builtin", "list"), (lp,), ()) and strip(loop.iter) != lp:
-            fail(rs, ctx, g, loop.node, f"every field must be looked for in *all* the section's lines (lines = list(lines_iter)); the scan "
-                                        f"iterates {show(loop.iter)[:160] if loop.iter else None} -- a pre-filter drops legitimate values")
-        line = ("elem", loop.id)
-        Mp = ("call", ("meth", H("method")), (("attr", SP, "regex_prog"), line), ())
-        inl = [e for e in live_exits(gs) if e.loops]
-        post = [e for e in live_exits(gs) if not e.loops]
-        okr = False
-        if len(inl) == 1 and inl[0].kind == "ret":
-            conds = [(a, p) for a, p in inl[0].cond if a[0] != "inloop"]
-            if len(conds) == 1 and not conds[0][1] and conds[0][0][0] == "cmp" and conds[0][0][1] == "is" and ("const", None) in conds[0][0][2:]:
-                other = conds[0][0][3] if conds[0][0][2] == ("const", None) else conds[0][0][2]
-                conds = [(other, True)]  # `m is None` false  ==  m truthy
-            bm = match(Mp, conds[0][0]) if len(conds) == 1 and conds[0][1] else None
-            if bm is not None and bm["method"] in ("match", "fullmatch", "search"):
-                method = bm["method"]
-                Mt = conds[0][0]
-                want = ("call", ("meth", "processing_fn"), (SP, ("call", ("meth", "group"), (Mt, ("const", 1)), ())), ())
-                want2 = ("call", ("attr", SP, "processing_fn"), (("call", ("meth", "group"), (Mt, ("const", 1)), ()),), ())
-                okr = strip(inl[0].value) in (strip(want), strip(want2))
-        if not okr:
-            fail(rs, ctx, g, loop.node, "the scan must return spec.processing_fn(m.group(1)) at the first line its own field's recogniser matches; found "
-                 + "; ".join(f"{e.kind} {show(e.value)[:120]} if {show(e.cond[-1][0])[:80] if e.cond else ''}" for e in inl)[:400])
-        if len(post) != 1 or post[0].kind != "raise" or exc_name(post[0].value) != RNM:
-            fail(rs, ctx, g, g.node, "when no line matches the scan must raise RegexNotMatchError (the 'field absent' signal)")
-        for e in gs.effects:
-            fail(rs, ctx, g, e.node, f"the scan has a side effect ({e.kind})")
-    # ---- setters
-    setters = {}
-    for n, g in nested.items():
-        if parse_f is not None and g is parse_f[0]:
-            continue
-        env = s.defs.get(n)
-        gs = ctx.ev.evaluate(g, {}, env, 0)
-        setters[n] = (g, gs)
-    raising = set()
-    storing = set()
-    for n, (g, gs) in setters.items():
-        fname = ("param", g.params()[0])
-        st = [e for e in gs.effects if e.kind == "store_sub"]
-        if st:
-            storing.add(g.qual)
-            rs.inst(f"{g.name}: kwargs[f] = scan(f) inside try/except RegexNotMatchError")
-            e = st[0]
-            okv = parse_f is not None and e.value[0] == "call" and e.value[1][0] in ("func", "closure") and e.value[1][1] == parse_f[0].qual \
-                and [v for k, v in e.value[3]] == [fname]
-            if len(st) != 1 or strip(e.key) != fname or not okv or (kwargs_alloc is not None and strip(e.target) != strip(kwargs_alloc)):
-                fail(rs, ctx, g, e.node, f"the setter must store kwargs[field_name] = scan(field_name) for one and the same field; found "
-                                         f"{show(e.target)[:40]}[{show(e.key)[:40]}] = {show(e.value)[:100]}")
-            if not e.trys:
-                fail(rs, ctx, g, e.node, "the store is not inside a try: an absent optional field would raise")
-            else:
-                tid, handlers = e.trys[-1]
-                hn = [exc_name(h) for hs in handlers if hs is not None for h in hs]
-                if hn != [RNM]:
-                    fail(rs, ctx, g, e.node, f"the handler must catch exactly RegexNotMatchError; catches {hn}")
-            for x in gs.effects:
-                if x not in st:
-                    fail(rs, ctx, g, x.node, f"setter has an extra effect ({x.kind})")
-            # the absent-field callback: called exactly when the scan raised and a callback was given
-            cb = None
-            for p_ in g.params()[1:]:
-                cb = ("param", p_)
-            cbcalls = [c for c in gs.calls if cb is not None and c.fn == cb]
-            if cb is not None:
-                okcb = len(cbcalls) == 1
-                if okcb:
-                    lits = [(a, p) for a, p in cbcalls[0].cond]
-                    from .lib import is_none_atom
-                    isn = [is_none_atom(cb)(a) for a, p in lits]
-                    raised = any(a[0] == "raises" and p for a, p in lits)
-                    guard = [(x, p) for x, (a, p) in zip(isn, lits) if x is not None]
-                    okcb = raised and len(guard) == 1 and (guard[0][0] != guard[0][1])  # `cb is None` must be False
-                if not okcb:
-                    fail(rs, ctx, g, g.node, "the absent-field callback must be invoked exactly when no line matched and a callback was supplied "
-                                             "(`except RegexNotMatchError: if callback is not None: callback()`): otherwise a missing Resolution is "
-                                             "not reported / an absent optional field calls None")
-    # which setter raises MissingRequiredField through its callback
-    for n, (g, gs) in setters.items():
-        for c in gs.calls:
-            for a in list(c.args) + [v for _, v in c.kwargs]:
-                if a[0] == "closure":
-                    lf = ctx.prog.lambdas.get(a[1])
-                    if lf is not None:
-                        ls = ctx.ev.evaluate(lf, {}, None, 0)
-                        for cc in ls.calls:
-                            for aa in subterms(cc.result):
-                                if aa[0] == "call" and aa[1] == ("class", MRF):
-                                    raising.add(g.qual)
+    for e in s.effects:
+        fail(rs, ctx, f, e.node, f"Metadata.from_chart_lines itself has a side effect ({e.kind} on {show(e.target)[:60]}) besides the per-field "
+                                 f"setter calls")
     rz = ctx.func("chartparse.exceptions.raise_")
     rzs = ctx.summary(rz)
     if not (len(rzs.exits) == 1 and rzs.exits[0].kind == "raise" and rzs.exits[0].value == ("param", rz.params()[0])):
         fail(rs, ctx, rz, rz.node, "raise_(ex) must raise its argument")
-    # ---- calls per field
+    tracer = Tracer(ctx, specs, SPECS, f, s)
+    lp = ("param", f.params()[1])
+    LINES = (("call", ("builtin", "list"), (lp,), ()), lp)
     called = {}
+    methods = {}
     for c in s.calls:
-        if c.fn[0] in ("func", "closure") and c.fn[1] in [g.qual for g, _ in setters.values()] and not c.inlined:
-            kw = dict(c.kwargs)
-            g = ctx.prog.functions.get(c.fn[1])
-            a = kw.get(g.params()[0])
-            if a is not None and a[0] == "elem" and a[1] in s.loops and c.loops == (a[1],):
-                # the setter is called for every element of a constant list of names
-                try:
-                    names_ = ctx.fold.fold(s.loops[a[1]].iter)
-                except NotConstant as e:
-                    names_ = None
-                    fail(ra, ctx, f, c.node, f"setter called in a loop over a list of names that does not fold to constants: {e}")
-                extra_c = [(x, p_) for x, p_ in c.cond if x[0] != "inloop"]
-                for x, p_ in extra_c:
-                    # `if name != "resolution":` inside the loop: a filter on the constant list of names
-                    sx = strip(x)
-                    if sx[0] == "cmp" and sx[1] == "==" and a in (sx[2], sx[3]) and (sx[2][0] == "const" or sx[3][0] == "const") and names_ is not None:
-                        cst = sx[2][1] if sx[2][0] == "const" else sx[3][1]
-                        names_ = [nm for nm in names_ if (nm == cst) == p_]
-                    else:
-                        fail(ra, ctx, f, c.node, "fields are only looked for under a condition")
-                for nm in (names_ or []):
-                    called.setdefault(nm, []).append((c.fn[1], c))
-                continue
-            if a is not None and a[0] == "const":
-                called.setdefault(a[1], []).append((c.fn[1], c))
-                if c.cond:
-                    fail(ra, ctx, f, c.node, f"field {a[1]!r} is only looked for under a condition")
-            else:
-                fail(ra, ctx, f, c.node, f"setter called with a non-literal field name {show(a)}")
+        if c.inlined:
+            continue
+        r = tracer.resolve(c.fn, c.args)
+        if r is None:
+            continue
+        callee, cenv, _ = r
+        bound = tracer.bind(callee, c)
+        if bound is None:
+            fail(ra, ctx, f, c.node, f"cannot bind the arguments of the call of {callee.qual}")
+            continue
+        lits = [(p_, v) for p_, v in bound.items() if v[0] == "const" and isinstance(v[1], str) and v[1] in FIELDS]
+        elems = [(p_, v) for p_, v in bound.items() if v[0] == "elem" and v[1] in s.loops and c.loops == (v[1],)]
+        names_ = None
+        if len(lits) == 1 and not elems:
+            names_ = [lits[0][1][1]]
+            if c.cond:
+                fail(ra, ctx, f, c.node, f"field {names_[0]!r} is only looked for under a condition")
+            if c.loops:
+                fail(ra, ctx, f, c.node, f"field {names_[0]!r} is looked for inside a loop")
+            subst = None
+        elif len(elems) == 1 and not lits:
+            a = elems[0][1]
+            # the setter is called for every element of a constant list of names
+            try:
+                names_ = list(ctx.fold.fold(s.loops[a[1]].iter))
+            except NotConstant as e:
+                names_ = None
+                fail(ra, ctx, f, c.node, f"setter called in a loop over a list of names that does not fold to constants: {e}")
+            for x, p_ in [(x, p_) for x, p_ in c.cond if x[0] != "inloop"]:
+                # `if name != "resolution":` inside the loop: a filter on the constant list of names
+                sx = strip(x)
+                if sx[0] == "cmp" and sx[1] == "==" and a in (sx[2], sx[3]) and (sx[2][0] == "const" or sx[3][0] == "const") and names_ is not None:
+                    cst = sx[2][1] if sx[2][0] == "const" else sx[3][1]
+                    names_ = [nm for nm in names_ if (nm == cst) == p_]
+                else:
+                    fail(ra, ctx, f, c.node, "fields are only looked for under a condition")
+            subst = elems[0][0]
+        else:
+            fail(ra, ctx, f, c.node, f"call of {callee.name} with a non-literal field name "
+                                     f"({', '.join(show(v)[:40] for v in bound.values())})")
+            continue
+        if c.trys:
+            fail(rs, ctx, f, c.node, "the per-field setter call is enclosed by a try in Metadata.from_chart_lines: a missing required field "
+                                     "(or any failure of one field) could be swallowed there")
+        for nm in (names_ or []):
+            b2 = dict(bound)
+            if subst is not None:
+                b2[subst] = ("const", nm)
+            tr = Trace()
+            tracer.walk(tr, callee, b2, cenv, (), (), 0)
+            called.setdefault(nm, []).append((callee.qual, c, tr))
+    for field, (kind, default) in FIELDS.items():
+        cs = called.get(field, [])
+        if len(cs) != 1:
+            continue  # reported in the agreement table below
+        _, c, tr = cs[0]
+        rs.inst(f"{field}: kwargs[{field!r}] = first matching line's converted value; absent -> "
+                f"{'MissingRequiredField' if default is REQ else 'default kept'}  (through {' -> '.join(q.rsplit('.', 1)[-1] for q in tr.visited)})")
+        m_ = judge_field(ctx, rs, f, c, tr, field, default is REQ, kwargs_alloc, SPECS, LINES)
+        if m_:
+            methods[field] = m_
+    ms = set(methods.values())
+    if len(ms) == 1:
+        method = ms.pop()
+    elif len(ms) > 1:
+        fail(rs, ctx, f, f.node, f"the fields are recognised with different regex methods {sorted(ms)}; the language obligations assume one")
     dc = {fl.name: fl for fl in mc.dc_fields()}
     for field, (kind, default) in FIELDS.items():
         ra.inst(f"{field}: {pascal(field)} / {kind}")
@@ -243,10 +288,6 @@ def run(ctx, rep):
         if len(cs) != 1:
             fail(ra, ctx, f, f.node, f"field {field!r} must be looked for exactly once; found {len(cs)} setter call(s): a field that is never "
                                      f"looked for silently keeps its default")
-        elif default is REQ and cs[0][0] not in raising:
-            fail(ra, ctx, f, cs[0][1].node, f"required field {field!r} must go through the setter whose callback raises MissingRequiredField")
-        elif default is not REQ and cs[0][0] in raising and cs[0][0] not in storing:
-            fail(ra, ctx, f, cs[0][1].node, f"optional field {field!r} goes through the raising setter: its absence would abort the parse")
         # conversion vs type
         pf = sp.attrs.get("processing_fn")
         ft = ctx.ev.types.field_type(mc, field)
